@@ -110,9 +110,11 @@ fn ensure_error_code_correct(
     field_name: &'static str,
 ) -> Result<(), ErrorObjectError> {
     match value {
-        JValue::Number(number) if number.is_i64() | number.is_u64() => {
-            ensure_error_code_is_error(number.as_i64().unwrap())
-        }
+        JValue::Number(number) if number.is_i64() | number.is_u64() => match number.as_i64() {
+            Some(error_code) => ensure_error_code_is_error(error_code),
+            // a u64 above i64::MAX is an integer and certainly isn't NO_ERROR_ERROR_CODE
+            None => Ok(()),
+        },
         _ => Err(ErrorObjectError::ScalarFieldIsWrongType {
             scalar: scalar.clone(),
             field_name,
